@@ -10,14 +10,14 @@ From Mos Require Import Base.Prelude Net.Shutdown Net.ShutdownProofs Router.Star
    changes nothing (reuse transport, pipeline transport); router.close is once-only. *)
 Theorem C18_close_idempotent :
   (forall s, exists s', r_step s RClose = Some s' /\ rs_closed s' = true /\ r_step s' RClose = Some s') /\
-  (forall s, exists s', p_step s PClose = Some s' /\ ps_closed s' = true /\ p_step s' PClose = Some s') /\
+  (forall s, exists s', sdp_step s PClose = Some s' /\ ps_closed s' = true /\ sdp_step s' PClose = Some s') /\
   (forall r, snd (close (fst (close r))) = ([], false)).
 Proof.
   split; [|split].
   - intros s. destruct (r_close_total s) as [s' [H1 H2]]. exists s'. repeat split; auto.
     eapply r_close_idempotent; eauto.
-  - intros s. destruct (p_close_total s) as [s' [H1 H2]]. exists s'. repeat split; auto.
-    eapply p_close_idempotent; eauto.
+  - intros s. destruct (sdp_close_total s) as [s' [H1 H2]]. exists s'. repeat split; auto.
+    eapply sdp_close_idempotent; eauto.
   - exact close_once.
 Qed.
 Print Assumptions C18_close_idempotent.
@@ -47,24 +47,24 @@ Print Assumptions C18_no_leak.
    still open is no longer in the open pool and has a closer that is already past "mark closed" (PsCloseB:
    its next step closes the net.Conn) or a pending closer started by the pool's idle trimming / the read loop
    (PsCloseA: two steps).  Those steps are enabled and close it.  Late dial results are closed by their own
-   completion step (they enter the table closed: see p_step PDialFinish). *)
+   completion step (they enter the table closed: see sdp_step PDialFinish). *)
 Theorem C18_no_leak_pipeline : forall ls s,
-  p_run p_init ls = Some s -> ps_closed s = true ->
+  sdp_run sdp_init ls = Some s -> ps_closed s = true ->
   forall c k0, nth_error (ps_conns s) c = Some k0 -> pc_open k0 = true ->
     (pc_closed k0 = true /\ has_stage (ps_tasks s) (PsCloseB c)) \/
     (pc_closed k0 = false /\ has_stage (ps_tasks s) (PsCloseA c)).
-Proof. exact p_no_leak. Qed.
+Proof. exact sdp_no_leak. Qed.
 Print Assumptions C18_no_leak_pipeline.
 
 Theorem C18_pipeline_closer_progress : forall s t k c k0,
   nth_error (ps_tasks s) t = Some k -> nth_error (ps_conns s) c = Some k0 ->
   (pt_stage k = PsCloseB c ->
-     exists s', p_step s (PCloseB t) = Some s' /\
+     exists s', sdp_step s (PCloseB t) = Some s' /\
                 exists k', nth_error (ps_conns s') c = Some k' /\ pc_open k' = false) /\
   (pt_stage k = PsCloseA c -> pc_closed k0 = false ->
-     exists s', p_run s [PCloseA t; PCloseB t] = Some s' /\
+     exists s', sdp_run s [PCloseA t; PCloseB t] = Some s' /\
                 exists k', nth_error (ps_conns s') c = Some k' /\ pc_open k' = false).
-Proof. exact p_closer_progress. Qed.
+Proof. exact sdp_closer_progress. Qed.
 Print Assumptions C18_pipeline_closer_progress.
 
 (* ------------------------------------------------------------------------------------------------
@@ -95,12 +95,12 @@ Print Assumptions C18_fail_not_hang.
    error by enabled internal steps — this follows informally from C18_no_leak_pipeline (the connection is
    closed or has a pending closer whose last step cancels pc.ctx) and is exercised by the harness. *)
 Theorem C18_fail_not_hang_pipeline_partial : forall ls s,
-  p_run p_init ls = Some s -> ps_closed s = true ->
+  sdp_run sdp_init ls = Some s -> ps_closed s = true ->
   (forall d dd, nth_error (ps_dials s) d = Some dd -> pd_result dd <> None) /\
-  (exists s', p_run s [PSpawn; PGet (length (ps_tasks s)) GNew] = Some s' /\
-              p_result s' (length (ps_tasks s)) = Some false).
+  (exists s', sdp_run s [PSpawn; SdGet (length (ps_tasks s)) GNew] = Some s' /\
+              sdp_result s' (length (ps_tasks s)) = Some false).
 Proof.
-  intros ls s H Cl. split; [eapply p_dials_resolved; eauto|apply p_new_exchange_fails; exact Cl].
+  intros ls s H Cl. split; [eapply sdp_dials_resolved; eauto|apply sdp_new_exchange_fails; exact Cl].
 Qed.
 Print Assumptions C18_fail_not_hang_pipeline_partial.
 
@@ -174,8 +174,8 @@ Print Assumptions C18_upstream_close_refuted.
    above apply to every state the correspondence check visits *)
 Theorem C18_big_refines_small :
   (forall h es s, r_bigs h r_init es = Some s -> exists ls, r_run r_init ls = Some s) /\
-  (forall h m es s, p_bigs h m p_init es = Some s -> exists ls, p_run p_init ls = Some s).
-Proof. split; [intros h es s; apply r_bigs_refines|intros h m es s; apply p_bigs_refines]. Qed.
+  (forall h m es s, sdp_bigs h m sdp_init es = Some s -> exists ls, sdp_run sdp_init ls = Some s).
+Proof. split; [intros h es s; apply r_bigs_refines|intros h m es s; apply sdp_bigs_refines]. Qed.
 Print Assumptions C18_big_refines_small.
 
 (* ---------------- non-vacuity ---------------- *)
@@ -197,8 +197,8 @@ Example C18_example_inflight :
 Proof. vm_compute. reflexivity. Qed.
 
 Example C18_example_pipeline :
-  match p_bigs false 1 p_init [XSpawn; XSpawn; XDialOk 0; XReply 0; XClose; XDialOk 1] with
-  | Some s => (ps_closed s, p_open_count s, p_result s 0, p_result s 1)
+  match sdp_bigs false 1 sdp_init [XSpawn; XSpawn; XDialOk 0; XReply 0; XClose; XDialOk 1] with
+  | Some s => (ps_closed s, sdp_open_count s, sdp_result s 0, sdp_result s 1)
   | None => (false, 99, None, None)
   end = (true, 0, Some true, Some false).
 Proof. vm_compute. reflexivity. Qed.
